@@ -292,6 +292,12 @@ theorem step_fresh (tbl : ClassTable) (hf : tbl.Faithful) (pol : Policy) (w : Wo
     simp only [Impl.step, Spec.step]
     exact ⟨⟨⟨by show (invalidate tbl (pol.inval m) st.s.h st.s.cur).g = ss.g; rw [invalidate_g]; exact hb.g,
       hb.vars, hb.cur, hb.repV, hb.repC⟩, by show st.epoch + 1 = ss.epoch + 1; rw [hep]⟩, by first | rfl | trivial⟩
+  | clearAll =>
+    simp only [Impl.step, Spec.step]
+    exact ⟨⟨⟨hb.g, hb.vars, hb.cur, hb.repV, hb.repC⟩, hep⟩, by first | rfl | trivial⟩
+  | change =>
+    simp only [Impl.step, Spec.step]
+    exact ⟨⟨⟨hb.g, hb.vars, hb.cur, hb.repV, hb.repC⟩, by show st.epoch + 1 = ss.epoch + 1; rw [hep]⟩, by first | rfl | trivial⟩
 
 theorem init_sync : Sync {} {} := by
   refine ⟨⟨rfl, rfl, rfl, fun n hn => (by cases hn), ?_⟩, rfl⟩
@@ -437,6 +443,13 @@ theorem step_coherent (tbl : ClassTable) (hf : tbl.Faithful) (pol : Policy) (hp 
   | dataMut m d =>
     simp only [Impl.step, invalidate, hp m]
     intro x hx; cases hx
+  | clearAll =>
+    simp only [Impl.step]
+    intro x hx; cases hx
+  | change =>
+    simp only [mutationUnseen, List.isEmpty_iff] at hu
+    simp only [Impl.step]
+    intro x hx; rw [hu] at hx; cases hx
 
 theorem run_coherent (tbl : ClassTable) (hf : tbl.Faithful) (pol : Policy) (hp : pol.ClearsAll) (w : World) :
     ∀ (ops : List Op) (st : Impl.State) (ss : Spec.State), Sync st ss → CacheCoherent (w st.epoch) st.s.h →
@@ -450,13 +463,14 @@ theorem run_coherent (tbl : ClassTable) (hf : tbl.Faithful) (pol : Policy) (hp :
     exact ⟨hok, run_coherent tbl hf pol hp w ops _ _ h1.1 hc' hu.2⟩
 
 theorem progUnseen_of_noParamMut (tbl : ClassTable) (pol : Policy) (w : World) :
-    ∀ (ops : List Op) (st : Impl.State), (∀ op ∈ ops, op.isParamMut = false) → progUnseen tbl pol w st ops = true
+    ∀ (ops : List Op) (st : Impl.State), (∀ op ∈ ops, op.isParamMut = false ∧ op.isBareChange = false) →
+      progUnseen tbl pol w st ops = true
   | [], _, _ => rfl
   | op :: ops, st, h => by
     simp only [progUnseen, Bool.and_eq_true]
     refine ⟨?_, progUnseen_of_noParamMut tbl pol w ops _ (fun o ho => h o (by simp [ho]))⟩
     have := h op (by simp)
-    cases op <;> simp_all [mutationUnseen, Op.isParamMut]
+    cases op <;> simp_all [mutationUnseen, Op.isParamMut, Op.isBareChange]
 
 /-! ## Generic keyed caches -/
 
